@@ -7,19 +7,33 @@ Require Import SkV.Lib.Base SkV.Lib.ZRange SkV.C02.Model SkV.C02.Proofs SkV.C02.
 Import ListNotations.
 Open Scope Z_scope.
 
+(* ---- constructor: _check_values and __init__ as regenerated = hand model, for EVERY input ------ *)
+
+Lemma bridge_check_values i : gen_check_values i = check_values i.
+Proof.
+  unfold gen_check_values, check_values, finish_index.
+  destruct i as [z|b|ns|ns| |l|a b s| ]; cbn [as_index as_int as_seq pd_int64index]; try reflexivity.
+Qed.
+
+Lemma bridge_init i r : gen_init i r = fh_init i r.
+Proof.
+  unfold gen_init, fh_init. destruct r as [b|]; cbn [as_bool]; [|reflexivity].
+  rewrite bridge_check_values. destruct (check_values i); [|reflexivity]. destruct b; reflexivity.
+Qed.
+
 (* ---- self._new: re-validation of a well-formed index is the identity ------------------------- *)
 
 Lemma bridge_new_copy f : wf f -> gen_new f None None = Ok f.
 Proof.
-  intro H. unfold gen_new, gen_is_relative. rewrite (fh_of_index_wf _ _ H).
+  intro H. unfold gen_new, gen_is_relative. rewrite bridge_init, (fh_of_index_wf _ _ H).
   rewrite <- fh_eta. reflexivity.
 Qed.
 
 Lemma bridge_new_both f l b : sorted_lt l -> gen_new f (Some l) (Some b) = Ok (mkfh l b).
-Proof. intro H. unfold gen_new. apply fh_of_index_wf. exact H. Qed.
+Proof. intro H. unfold gen_new. rewrite bridge_init. apply fh_of_index_wf. exact H. Qed.
 
 Lemma bridge_new_values f l : sorted_lt l -> gen_new f (Some l) None = Ok (mkfh l (rel f)).
-Proof. intro H. unfold gen_new, gen_is_relative. apply fh_of_index_wf. exact H. Qed.
+Proof. intro H. unfold gen_new, gen_is_relative. rewrite bridge_init. apply fh_of_index_wf. exact H. Qed.
 
 Lemma bridge_check_cutoff c idx : gen_check_cutoff c idx = match c with Some _ => Ok tt | None => Err end.
 Proof. reflexivity. Qed.
@@ -123,10 +137,47 @@ Qed.
 Lemma bridge_check_fh x e : gen_check_fh x e = check_fh x e.
 Proof.
   unfold gen_check_fh, check_fh, gen_to_pandas, gen_is_relative.
-  destruct x as [i|f]; [destruct (fh_init i (RBool true))|]; reflexivity.
+  destruct x as [i|f]; [rewrite bridge_init; destruct (fh_init i (RBool true))|]; reflexivity.
 Qed.
 
 (* ---- the property's sentences, about the regenerated code ------------------------------------ *)
+
+(* constructor (regenerated dispatch / duplicate check / sort / flag check over modelled pandas
+   primitives) *)
+Lemma code_init_sorted i r f : gen_init i r = Ok f -> sorted_lt (vals f).
+Proof. rewrite bridge_init. apply init_sorted. Qed.
+
+Lemma code_init_accepts_and_sorts i l b : holds_steps i l -> NoDup l ->
+  exists f, gen_init i (RBool b) = Ok f /\ rel f = b /\
+            sorted_lt (vals f) /\ Permutation (vals f) l /\ (forall x, In x (vals f) <-> In x l).
+Proof. rewrite bridge_init. apply init_accepts_and_sorts. Qed.
+
+Lemma code_init_sorted_verbatim i l b : holds_steps i l -> sorted_lt l ->
+  gen_init i (RBool b) = Ok (mkfh l b).
+Proof. rewrite bridge_init. apply init_sorted_verbatim. Qed.
+
+Lemma code_init_rejects_duplicates i l r : holds_steps i l -> ~ NoDup l -> gen_init i r = Err.
+Proof. rewrite bridge_init. apply init_rejects_duplicates. Qed.
+
+Lemma code_init_rejects_fractional i ns q r : element_container i ns -> In (NFloat q) ns ->
+  (forall z, ~ (q == inject_Z z)%Q) -> gen_init i r = Err.
+Proof. rewrite bridge_init. apply init_rejects_fractional. Qed.
+
+Lemma code_init_rejects_unsupported_element i ns n r : element_container i ns -> In n ns ->
+  n = NStr \/ n = NNone \/ n = NNonFinite -> gen_init i r = Err.
+Proof. rewrite bridge_init. apply init_rejects_unsupported_element. Qed.
+
+Lemma code_init_rejects_unsupported_container r :
+  gen_init IOther r = Err /\ gen_init IArrNd r = Err.
+Proof. rewrite !bridge_init. apply init_rejects_unsupported_container. Qed.
+
+Lemma code_init_rejects_bad_flag i : gen_init i RBad = Err.
+Proof. rewrite bridge_init. apply init_rejects_bad_flag. Qed.
+
+Lemma code_init_integral_floats (l : list Z) r :
+  gen_init (IList (map (fun z => NFloat (inject_Z z)) l)) r = gen_init (IList (map NInt l)) r /\
+  gen_init (IArr (map (fun z => NFloat (inject_Z z)) l)) r = gen_init (IIndex l) r.
+Proof. rewrite !bridge_init. apply init_integral_floats. Qed.
 
 (* absolute form = cutoff + steps, relative form = absolute - cutoff; order kept *)
 Lemma code_absolute_is_cutoff_plus_steps f c : wf f -> rel f = true ->
@@ -189,13 +240,13 @@ Qed.
 
 (* sentence 1 end to end: any duplicate-free collection of integer steps, in any container kind *)
 Lemma code_build_absolute_and_back i l c : holds_steps i l -> NoDup l ->
-  exists f a, fh_init i (RBool true) = Ok f /\
+  exists f a, gen_init i (RBool true) = Ok f /\
     sorted_lt (vals f) /\ Permutation (vals f) l /\
     gen_to_absolute f (Some c) = Ok a /\
     vals a = map (fun s => c + s) (vals f) /\ rel a = false /\ sorted_lt (vals a) /\
     gen_to_relative a (Some c) = Ok f.
 Proof.
-  intros Hh Hn. destruct (init_accepts_and_sorts i l true Hh Hn) as [f (Hi & R & Hs & Hp & _)].
+  intros Hh Hn. destruct (code_init_accepts_and_sorts i l true Hh Hn) as [f (Hi & R & Hs & Hp & _)].
   destruct (code_absolute_is_cutoff_plus_steps f c Hs R) as [Ha Hsa].
   exists f, (mkfh (map (fun s => c + s) (vals f)) false). cbn [vals rel].
   repeat split; try assumption. eapply code_roundtrip_relative; eauto.
@@ -283,10 +334,13 @@ Qed.
    are rejected; nothing else changes *)
 Lemma code_check_fh x e f :
   gen_check_fh x e = Ok f <->
-  (match x with InRaw i => fh_init i (RBool true) = Ok f | InFh g => g = f end) /\
+  (match x with InRaw i => gen_init i (RBool true) = Ok f | InFh g => g = f end) /\
   vals f <> [] /\ (e = true -> rel f = true).
 Proof.
   rewrite bridge_check_fh. unfold check_fh, zlen.
+  replace (match x with InRaw i => gen_init i (RBool true) = Ok f | InFh g => g = f end)
+    with (match x with InRaw i => fh_init i (RBool true) = Ok f | InFh g => g = f end)
+    by (destruct x; [rewrite bridge_init|]; reflexivity).
   destruct x as [i|g].
   - destruct (fh_init i (RBool true)) as [g|]; [|split; [discriminate|intros [E _]; discriminate]].
     destruct (vals g) as [|v t] eqn:V; cbn [length].
@@ -309,7 +363,7 @@ Qed.
 Lemma ex_nonvacuous :
   holds_steps (IList [NInt 3; NFloat (Qmake (-2) 1); NBool false; NInt 1]) [3; -2; 0; 1] /\
   NoDup [3; -2; 0; 1] /\
-  fh_init (IList [NInt 3; NFloat (Qmake (-2) 1); NBool false; NInt 1]) (RBool true)
+  gen_init (IList [NInt 3; NFloat (Qmake (-2) 1); NBool false; NInt 1]) (RBool true)
     = Ok (mkfh [-2; 0; 1; 3] true) /\
   wf (mkfh [-2; 0; 1; 3] true) /\
   gen_to_absolute (mkfh [-2; 0; 1; 3] true) (Some (-5)) = Ok (mkfh [-7; -5; -4; -2] false) /\
